@@ -21,7 +21,7 @@ Definition val_ok (c : val_case) : bool :=
   match c with
   | VJC ptbl tztbl dtz hash jc acc loads dok =>
       let o := mk_oracles ptbl tztbl dtz in
-      Bool.eqb (valid_jc o jc) acc && Bool.eqb (loadable o hash (ac_sched jc)) loads &&
+      Bool.eqb (valid_jc o hash jc) acc && Bool.eqb (loadable o hash (ac_sched jc)) loads &&
       Bool.eqb (match default_subs (map fst (ac_opts jc)) with Some _ => true | None => false end) dok
   | VJob j acc => Bool.eqb (valid_job j) acc
   | VUpd now o n acc => Bool.eqb (update_ok now o n) acc
@@ -31,8 +31,8 @@ Definition val_diff (c : val_case) :=
   match c with
   | VJC ptbl tztbl dtz hash jc acc loads dok =>
       let o := mk_oracles ptbl tztbl dtz in
-      [valid_jc o jc; loadable o hash (ac_sched jc); valid_tmpl (ac_tmpl jc); valid_conc (ac_policy jc) (ac_maxc jc);
-       valid_sched o (ac_sched jc); valid_options (ac_opts jc)]
+      [valid_jc o hash jc; loadable o hash (ac_sched jc); valid_tmpl (ac_tmpl jc); valid_conc (ac_policy jc) (ac_maxc jc);
+       valid_sched o hash (ac_sched jc); valid_options (ac_opts jc)]
   | VJob j acc => [valid_job j]
   | VUpd now o n acc => [update_ok now o n]
   end.
